@@ -19,6 +19,9 @@ ASSUMPTIONS = [
     "recorded as known finding F16) ",
     "sequential semantics: the model takes 'commit = one atomic store write' as its primitive; atomicity under a "
     "concurrent reader is judged only by the harness's probe on the real backends (known finding F15 on Fjall)",
+    "fjall 3.0.1's Database drop occasionally never returns (upstream shutdown race: Close messages sent into a "
+    "bounded channel nobody reads); the harness closes databases in a helper thread with a 20 s limit and abandons "
+    "the rest of such a case (counted in input_distribution.backend_close_hung_case_abandoned_*)",
     "Fjall: composite keys longer than 65535 bytes are refused by a backend assertion (panic) on every call that "
     "touches them; the model reproduces exactly that outcome, the oracle accepts it as the documented limit",
 ]
@@ -94,7 +97,7 @@ def _collect(ctx, n_quick, n_thorough):
 
 
 def run(ctx):
-    return _collect(ctx, 40, 450)
+    return _collect(ctx, 40, 380)
 
 
 def search(ctx, res):
